@@ -59,8 +59,10 @@ def observe_params(text):
     from harness.rig import FilterRig, nat
     event = {"k": "params", "chars": list(text), "items": [], "raised": "", "moved": False,
              "pos": {"X": 0, "Y": 0, "Z": 0, "E": 0}, "text": text}
+    # the code glued to the first word, or one / two blanks after it
+    head = ["G1 ", "G1", "G1  ", "G1 "][len(text) % 4]
     try:
-        items = list(GcodeParser().parse("G1 " + text).parameterItems())
+        items = list(GcodeParser().parse(head + text).parameterItems())
         for name, value in items:
             if name == "":
                 continue
@@ -71,7 +73,7 @@ def observe_params(text):
                 event["items"].append({"l": name, "has": True, "num": num, "den": den})
         rig = FilterRig({})
         rig.gcode("G28")
-        result = rig.gcode("G1 " + text)
+        result = rig.gcode(head + text)
         if result["res"] == "exc":
             event["raised"] = result["exc"]
         pos = rig.state.position
